@@ -146,7 +146,9 @@ func c14dhtRun(t *testing.T, r *vfRand, c *c14dhtCase, lc *lkCase, w *wWorld, tr
 				tr.CtorPanic(fmt.Sprint(e))
 			}
 		}()
+		gate.Open.Store(true) // the constructor runs on the driver's goroutine
 		d, err = New(h, opts...)
+		gate.Open.Store(false)
 	}()
 	plan := &zzc14.Plan{Gate: gate, UseWait: true, CloseAt: c.closeAt, CloseOp1: c.closeOp1, CloseDelay: c.closeDelay, Concurrent2: c.conc2, MaxSteps: 3000, Idle: 10 * time.Second, MaxIdle: 20,
 		Final: func() { _ = h.Close() }}
